@@ -72,6 +72,7 @@ TOL = {
 MODELLED = {
     "SingleAxisFiniteDifference", "FiniteDifference", "DFT", "CircularConvolve", "Convolve", "ConvolveByX", "Pad", "Crop",
     "Reshape", "Transpose", "Sum", "Slice", "VerticalStack", "DiagonalStack", "DiagonalReplicated", "XRayTransform2D",
+    "SingleAxisFiniteSum", "FiniteSum", "SingleAxisHaarTransform", "HaarTransform",
 }
 HIPREC = {"DFT": np.complex128, "XRayTransform2D": np.float64, "XRayTransform3D": np.float64}
 
@@ -243,8 +244,25 @@ class Lean:
             P2 = np.zeros((mo, mo))
             P2[np.arange(mo), r3["src"]] = 1
             return P2 @ _mat(r2["mat"]) @ P1, None
-        if name in ("SingleAxisFiniteSum", "FiniteSum"):
-            return None
+        if name in ("SingleAxisFiniteSum", "FiniteSum", "SingleAxisHaarTransform", "HaarTransform") and real:
+            sh = c["shape"]
+            nd = len(sh)
+            if name.startswith("SingleAxis"):
+                axes = [c["axis"] % nd]
+            else:
+                axes = [a % nd for a in (c["axes"] if c["axes"] is not None else range(nd))]
+            haar = "Haar" in name
+            blocks = []
+            for a in axes:
+                S, _, _ = self.chain(sh, [(a, {"kind": "fsum"})], [])
+                if haar:  # (1/sqrt 2) * (two-point sum ; circular difference)
+                    Dc, _, _ = self.chain(sh, [(a, {"kind": "fd", "prepend": None, "append": None, "circular": True})], [])
+                    blocks += [S / math.sqrt(2.0), Dc / math.sqrt(2.0)]
+                else:
+                    blocks.append(S)
+            xs = self.xs(_prod(sh))
+            r = self.m.call("vstack", blocks=[_blk(B) for B in blocks], n=_prod(sh), xs=[fs2b(x) for x in xs])
+            return _mat(r["mat"]), (xs, [np.array(b2fs(y)) for y in r["ys"]])
         return None
 
     def circ(self, c):
